@@ -81,6 +81,11 @@ impl Out {
         self.w.write_all(b"\n").unwrap();
         self.count += 1;
     }
+    /// Flushes without consuming (for writers shared with a watchdog thread).
+    pub fn flush_count(&mut self) -> usize {
+        self.w.flush().unwrap();
+        self.count
+    }
     pub fn finish(mut self) -> usize {
         self.w.flush().unwrap();
         self.count
